@@ -37,6 +37,18 @@ CHECKS = {
         note='In-process crash simulation (BaseException at effect boundaries; written data assumed on disk); '
              'TensorBoard summaries stubbed; harness-supplied deterministic algorithm/eval fns; TLC, JVM.',
         design='5/C09'),
+    'C15': dict(
+        technique='TLA+ specs MultiBatch.tla (carry-over buffer machine), BufShuffle.tla (swap machine), RepIter.tla '
+                  'model-checked by TLC; MultiBatch final states replayed into padded_batch_client_datasets / '
+                  'padded_batch_federated_data; real runs (logging rng, inferred swaps) validated as traces by TLC; '
+                  'seed reproducibility as PureHistory facts',
+        text='TLC proves concat-preservation, all-but-last-full, bucket padding and mismatch rejection of the buffer '
+             'machine for all size sequences in the bounds, exactly-once emission of buffered shuffling for all '
+             'permutations/swap indices, and pass equality of the repeatable iterator; each is bound to the code by '
+             'exhaustive replay of the emitted cases and by TLC validation of recorded real runs over larger ranges.',
+        note='A trailing batch with no real row is accepted either way; non-trivial order only for streams >= 10; '
+             'empty federated datasets are C08 territory.',
+        design='5/C15'),
     'C19': dict(
         technique='TLA+ spec Cache.tla model-checked by TLC (kills, torn writes, I/O errors at every step, liveness); '
                   'real maybe_download/maybe_lzma_decompress explored breadth-first over fault-reachable cache '
